@@ -6,7 +6,7 @@ from gen import jsonrt as J
 
 class P(Prop):
     ID = "C19"
-    THEOREMS = ["C19_refuted_nonascii", "C19_flat_object_round_trip", "C19_flat_domain_inhabited", "C19_scanner_reads_written", "C19_integer_text_parses", "C19_int_array_round_trip", "C19_int_array_domain_inhabited", "C19_bool_array_round_trip", "C19_null_array_round_trip", "C19_string_array_round_trip", "C19_float_array_round_trip", "C19_nested_example", "C19_nested_round_trip", "C19_nested_domain_inhabited"]
+    THEOREMS = ["C19_refuted_nonascii", "C19_flat_object_round_trip", "C19_flat_domain_inhabited", "C19_scanner_reads_written", "C19_integer_text_parses", "C19_int_array_round_trip", "C19_int_array_domain_inhabited", "C19_bool_array_round_trip", "C19_null_array_round_trip", "C19_string_array_round_trip", "C19_float_array_round_trip", "C19_nested_example", "C19_nested_round_trip", "C19_object_array_round_trip", "C19_nested_domain_inhabited"]
     COQ_TARGETS = ["theories/Props/C19.vo", "theories/Extract.vo"]
     N_QUICK = 3000
     N_THOROUGH = 60000
